@@ -193,7 +193,7 @@ pub fn rich_generic_devs(lifetime_ok: bool) -> Vec<Dev> {
         s.variants[0].kind = Kind::Tuple(vec![FieldTy::Raw("::core::marker::PhantomData<P>".into(), "PhantomData<vf_core::harness::Nd>".into()), FieldTy::Raw("Option<P>".into(), "None".into())]);
         true
     }));
-    d.push(dev("payload types that mention Self", &["kind0"], move |s| {
+    d.push(dev("payload types that mention Self", &["gen", "kind0"], move |s| {
         if !free0(s) {
             return false;
         }
